@@ -73,6 +73,54 @@ func scenForgeSess(r *Run) {
 				return
 			}
 			g := q[t.Choose(fs, len(q))]
+			if t.Chance(fs, 200) {
+				// raw damage, not re-sealed: every short length, truncation anywhere,
+				// bit flips, trailing garbage (rejected at the gate under a cipher,
+				// parsed as it is without one)
+				var d []byte
+				what := ""
+				kind := t.Choose(fs, 4)
+				if to == w.LConn && o.World.Cipher == "null" && (kind == 0 || kind == 2) {
+					// without a cipher these may carry a foreign conversation id, which
+					// makes the listener create or replace a session (see kcp-conv below)
+					kind = 1
+				}
+				switch kind {
+				case 0:
+					d = make([]byte, t.Choose(fs, 48))
+					xx := splitmixFrom(t, fs)
+					for j := range d {
+						d[j] = byte(splitmix(&xx))
+					}
+					what = "raw-short"
+				case 1:
+					d = append([]byte(nil), g[:t.Choose(fs, len(g))]...)
+					what = "raw-truncated"
+				case 2:
+					d = append([]byte(nil), g...)
+					for j, n := 0, 1+t.Choose(fs, 4); j < n; j++ {
+						d[t.Choose(fs, len(d))] ^= byte(1 << t.Choose(fs, 8))
+					}
+					what = "raw-bitflips"
+				default:
+					d = append([]byte(nil), g...)
+					xx := splitmixFrom(t, fs)
+					for j, n := 0, 1+t.Choose(fs, 1500-len(g)+1); j < n && len(d) < 1500; j++ {
+						d = append(d, byte(splitmix(&xx)))
+					}
+					what = "raw-extended"
+				}
+				for _, ep := range w.Eps {
+					ep.Out.NoCheck = true
+					if ep.In != nil {
+						ep.In.NoCheck = true
+					}
+				}
+				s.L.Logf("inject damaged datagram (%s, %d bytes) into %s as from %s", what, len(d), to.addrStr, from)
+				s.Stats.Fault("forged:" + what)
+				w.Net.Deliver(to.addrStr, from, d, "forge")
+				return
+			}
 			_, payload, ok, _ := w.Ref.Open(g)
 			if !ok {
 				return
